@@ -59,7 +59,7 @@ def match(source: str, pos: int) -> MatchResult:
         elif token_type == TokenType.PropertyValue:
             pending = pending_property[0]
             if pending and pending[0] < pos < max(delimiter + 1, end):
-                result[0] = MatchResult('property', pending[0], delimiter + 1, start, end)
+                result[0] = MatchResult('property', pending[0], delimiter + 1 if delimiter != -1 else end, start, end)
                 return False
             release_pending()
 
@@ -200,7 +200,7 @@ def balanced_inward(source: str, pos: int) -> list:
                 p = pending_property[0]
                 if p.start <= pos <= end:
                     # Direct hit into property, no need to look further
-                    push(result, (p.start, delimiter + 1))
+                    push(result, (p.start, delimiter + 1 if delimiter != -1 else end))
                     push(result, (start, end))
                     release_pending()
                     return False
